@@ -57,6 +57,12 @@ package certs
 //@   pure
 //@   ensures result <==> (isnil(name.Label) && name.Type == 0)
 
+// VerifyLeafFormat is the chain-free part of leaf verification: leaf type and (when a name is requested) the name.
+//@ func VerifyLeafFormat(leaf *Certificate, opts VerifyOptions) (err error)
+//@   property C04 C07
+//@   pure
+//@   ensures err == nil <==> (leaf.Type == Leaf && ((isnil(opts.Name.Label) && opts.Name.Type == 0) || nameIn(leaf, opts.Name)))
+
 // VerifyLeaf accepts exactly the valid chains (statement of C04), for every
 // explicit verification time.  inter is the presented intermediate when its
 // fingerprint is the one the leaf names, otherwise the stored certificate under
